@@ -705,6 +705,7 @@ func filtersMain(args []string) int {
 	tier := fs.String("tier", "quick", "")
 	seed := fs.Int64("seed", 1, "")
 	noeq := fs.Bool("noeq", false, "skip the all-pairs FiltersEqual matrix")
+	eqlimit := fs.Int("eqlimit", 0, "compare only the first N terms pairwise (0 = all)")
 	fs.Parse(args)
 
 	rng := rand.New(rand.NewSource(*seed))
@@ -765,9 +766,13 @@ func filtersMain(args []string) int {
 	neq := 0
 	npairs := 0
 	if !*noeq {
-		for i := range terms {
+		lim := len(terms)
+		if *eqlimit > 0 && *eqlimit < lim {
+			lim = *eqlimit
+		}
+		for i := 0; i < lim; i++ {
 			var js []string
-			for j := range terms {
+			for j := 0; j < lim; j++ {
 				if i == j {
 					continue
 				}
